@@ -94,7 +94,7 @@ class Live:
             if self.raw:
                 return "", ""
             self.refs.append((tag, attr(n, "w:id")))
-            return "\x00%d\x00" % (len(self.refs) - 1), ""
+            return "\x00%d\x01" % (len(self.refs) - 1), ""
         if tag == "w:tbl":
             return self.table(n)
         if tag in READ_THROUGH:
@@ -152,9 +152,11 @@ def expected_text(parts):
     sp = Live(False)
     t, d = sp.nodes(body[2])
     exp = t + d
-    order = [int(x) for x in re.findall("\x00(\\d+)\x00", exp)]
-    for k, idx in enumerate(order):
-        exp = exp.replace("\x00%d\x00" % idx, "[%d]" % (k + 1))
+    # markers are \x00<index>\x01 (neither character can occur in XML text); numbered in ONE left-to-right pass —
+    # replacing marker by marker let document digits between two markers form a spurious marker (false alarm, seed 1)
+    order = [int(x) for x in re.findall("\x00(\\d+)\x01", exp)]
+    count = iter(range(1, len(order) + 1))
+    exp = re.sub("\x00(\\d+)\x01", lambda m: "[%d]" % next(count), exp)
     fn = next((p["xml"] for p in parts if "xml" in p and p["xml"][0] == "w:footnotes"), None)
     en = next((p["xml"] for p in parts if "xml" in p and p["xml"][0] == "w:endnotes"), None)
     for idx in order:
